@@ -243,7 +243,10 @@ pub fn run(prop: &str, tier: &str, seed: u64, outdir: &str) {
                     experiments::exp_c08(&mut exp);
                     experiments::exp_c08_floor(&mut exp);
                 }
-                "C11" => experiments::exp_c11(&mut exp),
+                "C11" => {
+                    experiments::exp_c11(&mut exp);
+                    experiments::exp_c11_td_weight_range(&mut exp);
+                }
                 _ => {}
             }
             experiments::exp_glue(&mut exp, prop);
